@@ -1232,16 +1232,18 @@ let bcast_seq k sh cells =
 
 type var = { vdtype : dtype; vshape : nat list; vdata : pyval list }
 
-type regent =
-| RName of char list
-| RJunk
+type regent = char list
+  (* singleton inductive, whose constructor was RName *)
 
 (** val reg_mem : char list -> regent list -> bool **)
 
 let reg_mem x r =
-  existsb (fun e -> match e with
-                    | RName s -> eqb0 x s
-                    | RJunk -> false) r
+  existsb (fun e -> eqb0 x e) r
+
+(** val reg_names : regent list -> char list list **)
+
+let reg_names r =
+  map (fun e -> e) r
 
 type ckind =
 | CVC
@@ -1315,12 +1317,24 @@ type key =
 | KTuple3
 | KOther
 
+type query =
+| QCompletions
+| QDir
+| QContains of char list
+| QNbytes
+
+type qval =
+| VNames of char list list
+| VBool of bool
+| VNat of nat
+
 type op =
 | AddVariable of char list * operand * dreq option
 | SetAttr of char list * operand * char list option
 | SetItem of key * operand
 | ReplaceValues of (char list * operand) list
 | AddAttribute of char list * operand
+| Query of query
 
 (** val find_pos : z -> z list -> nat option **)
 
@@ -1854,8 +1868,7 @@ let add_attribute pycast arrcast infer name value s =
        then err s DuplicateNameError
        else let (s', o) = obj_setattr pycast arrcast infer name value s in
             (match o with
-             | Ret _ ->
-               ok (set_registry s' (app s'.registry ((RName name) :: [])))
+             | Ret _ -> ok (set_registry s' (app s'.registry (name :: [])))
              | Raise e -> (s', (Raise e)))
 
 (** val alternatives :
@@ -1890,38 +1903,6 @@ let setattr pycast arrcast infer name value hint s =
             else add_attribute pycast arrcast infer name value s
        else setattr_var pycast arrcast name value s
 
-type hidden =
-| HRegistry
-| HNoItemAssign
-| HMissing
-| HUnmodelled
-
-(** val hidden_lookup : char list -> state -> hidden **)
-
-let hidden_lookup name s =
-  if eqb0 name
-       ('a'::('t'::('t'::('r'::('i'::('b'::('u'::('t'::('e'::('s'::[]))))))))))
-  then HRegistry
-  else if eqb0 name ('s'::('t'::('r'::('i'::('c'::('t'::[]))))))
-       then HNoItemAssign
-       else if match s.kind with
-               | CLinker _ ->
-                 (||) (eqb0 name ('L'::('A'::('G'::('S'::[])))))
-                   (eqb0 name ('L'::('E'::('A'::('D'::('S'::[]))))))
-               | _ -> false
-            then HNoItemAssign
-            else (match assoc ('_'::name) s.adict with
-                  | Some _ -> HUnmodelled
-                  | None -> HMissing)
-
-(** val regent_of : operand -> regent **)
-
-let regent_of = function
-| OScalar v -> (match v with
-                | PStr x -> RName x
-                | _ -> RJunk)
-| _ -> RJunk
-
 (** val setitem :
     (dtype -> pyval -> pyval outcome) -> (dtype -> dtype -> pyval -> pyval
     outcome) -> (pyval list -> dtype) -> (dtype -> exn) -> key -> operand ->
@@ -1934,52 +1915,46 @@ let setitem pycast arrcast infer itemseq_exn k value s =
     then err s KeyError
     else setattr pycast arrcast infer name value None s
   | KLabel (name, l) ->
-    (match locate s.span l with
-     | Ret p ->
-       (match assoc name s.vars with
-        | Some v ->
-          let (v', e) = assign_item pycast arrcast itemseq_exn v p value in
-          ((set_vars s (assoc_set name v' s.vars)),
-          (match e with
-           | Some x -> Raise x
-           | None -> Ret ()))
-        | None ->
-          (match hidden_lookup name s with
-           | HRegistry ->
-             if Nat.ltb p (length s.registry)
-             then ok (set_registry s (upd p (regent_of value) s.registry))
-             else err s IndexError
-           | HNoItemAssign -> err s TypeError
-           | HMissing -> err s KeyError
-           | HUnmodelled -> err s OtherError))
-     | Raise e -> err s e)
+    if negb (mem name s.index)
+    then err s KeyError
+    else (match locate s.span l with
+          | Ret p ->
+            (match assoc name s.vars with
+             | Some v ->
+               let (v', e) = assign_item pycast arrcast itemseq_exn v p value
+               in
+               ((set_vars s (assoc_set name v' s.vars)),
+               (match e with
+                | Some x -> Raise x
+                | None -> Ret ()))
+             | None -> err s KeyError)
+          | Raise e -> err s e)
   | KSlice (name, a, b, st) ->
-    (match resolve_slice s.span a b st with
-     | Ret a0 ->
-       let (p, step0) = a0 in
-       let (sl, el) = p in
-       (match assoc name s.vars with
-        | Some v ->
-          (match v.vshape with
-           | [] -> err s OtherError
-           | m :: l ->
-             (match l with
-              | [] ->
-                (match slice_positions m sl el step0 with
-                 | Some ps ->
-                   let (v', e) = assign_inplace pycast arrcast v ps value in
-                   ((set_vars s (assoc_set name v' s.vars)),
-                   (match e with
-                    | Some x -> Raise x
-                    | None -> Ret ()))
-                 | None -> err s ValueError)
-              | _ :: _ -> err s OtherError))
-        | None ->
-          (match hidden_lookup name s with
-           | HNoItemAssign -> err s TypeError
-           | HMissing -> err s KeyError
-           | _ -> err s OtherError))
-     | Raise e -> err s e)
+    if negb (mem name s.index)
+    then err s KeyError
+    else (match resolve_slice s.span a b st with
+          | Ret a0 ->
+            let (p, step0) = a0 in
+            let (sl, el) = p in
+            (match assoc name s.vars with
+             | Some v ->
+               (match v.vshape with
+                | [] -> err s OtherError
+                | m :: l ->
+                  (match l with
+                   | [] ->
+                     (match slice_positions m sl el step0 with
+                      | Some ps ->
+                        let (v', e) = assign_inplace pycast arrcast v ps value
+                        in
+                        ((set_vars s (assoc_set name v' s.vars)),
+                        (match e with
+                         | Some x -> Raise x
+                         | None -> Ret ()))
+                      | None -> err s ValueError)
+                   | _ :: _ -> err s OtherError))
+             | None -> err s KeyError)
+          | Raise e -> err s e)
   | KTuple3 -> err s IndexError
   | KOther -> err s TypeError
 
@@ -2079,6 +2054,40 @@ let add_variable pycast arrcast infer astype_dt name value dt s =
      | Ret _ -> ok (set_names s' (app s'.names (name :: [])))
      | Raise e -> (s', (Raise e)))
 
+(** val itemsize : dtype -> nat **)
+
+let itemsize = function
+| DBool -> S O
+| DStr k -> mul (S (S (S (S O)))) k
+| _ -> S (S (S (S (S (S (S (S O)))))))
+
+(** val nbytes_of : (char list -> char list) -> state -> nat outcome **)
+
+let nbytes_of rn s =
+  fold_right (fun x acc ->
+    match acc with
+    | Ret a ->
+      (match assoc (rn x) s.vars with
+       | Some v ->
+         if mem (rn x) s.index
+         then Ret (add (mul (prod_shape v.vshape) (itemsize v.vdtype)) a)
+         else Raise KeyError
+       | None -> Raise KeyError)
+    | Raise e -> Raise e) (Ret O) s.index
+
+(** val read : query -> state -> state * qval outcome **)
+
+let read q s =
+  match q with
+  | QCompletions -> (s, (Ret (VNames s.index)))
+  | QDir -> (s, (Ret (VNames (app s.index (reg_names s.registry)))))
+  | QContains n0 -> (s, (Ret (VBool (mem n0 (row_names s)))))
+  | QNbytes ->
+    (s,
+      (match nbytes_of (fun x -> x) s with
+       | Ret n0 -> Ret (VNat n0)
+       | Raise e -> Raise e))
+
 (** val step :
     (dtype -> pyval -> pyval outcome) -> (dtype -> dtype -> pyval -> pyval
     outcome) -> (pyval list -> dtype) -> (dtype -> pyval list -> dreq ->
@@ -2092,15 +2101,12 @@ let step pycast arrcast infer astype_dt itemseq_exn o s =
   | SetItem (k, v) -> setitem pycast arrcast infer itemseq_exn k v s
   | ReplaceValues kvs -> replace_values pycast arrcast infer itemseq_exn kvs s
   | AddAttribute (name, v) -> add_attribute pycast arrcast infer name v s
+  | Query q -> ((fst (read q s)), (Ret ()))
 
 (** val core_registry : regent list **)
 
 let core_registry =
-  (RName
-    ('_'::('a'::('t'::('t'::('r'::('i'::('b'::('u'::('t'::('e'::('s'::[])))))))))))) :: ((RName
-    ('s'::('p'::('a'::('n'::[]))))) :: ((RName
-    ('i'::('n'::('d'::('e'::('x'::[])))))) :: ((RName
-    ('_'::('s'::('t'::('r'::('i'::('c'::('t'::[])))))))) :: [])))
+  ('_'::('a'::('t'::('t'::('r'::('i'::('b'::('u'::('t'::('e'::('s'::[]))))))))))) :: (('s'::('p'::('a'::('n'::[])))) :: (('i'::('n'::('d'::('e'::('x'::[]))))) :: (('_'::('s'::('t'::('r'::('i'::('c'::('t'::[]))))))) :: [])))
 
 (** val init_vc : z list -> bool -> state **)
 
@@ -2213,13 +2219,6 @@ let init_model pycast arrcast infer astype_dt k sp st d default nAMES ivs =
                                   ('p'::('y'::('t'::('h'::('o'::('n'::[]))))))))
                                   s11
                               | _ -> ok s11)))))))))
-
-(** val itemsize : dtype -> nat **)
-
-let itemsize = function
-| DBool -> S O
-| DStr k -> mul (S (S (S (S O)))) k
-| _ -> S (S (S (S (S (S (S (S O)))))))
 
 (** val nbytes_own : state -> nat **)
 
@@ -2492,13 +2491,30 @@ let resolve_op am o = match o with
   ReplaceValues (map (fun kv -> ((resolve am (fst kv)), (snd kv))) kvs)
 | _ -> o
 
+(** val alias_read : aobj -> query -> state -> state * qval outcome **)
+
+let alias_read am q s =
+  match q with
+  | QCompletions -> (s, (Ret (VNames (app s.index (akeys am.amap)))))
+  | QDir ->
+    (s, (Ret (VNames
+      (app s.index (app (reg_names s.registry) (akeys am.amap))))))
+  | QContains n0 -> read (QContains n0) s
+  | QNbytes ->
+    (s,
+      (match nbytes_of (resolve am) s with
+       | Ret n0 -> Ret (VNat n0)
+       | Raise e -> Raise e))
+
 (** val gen_alias_step :
     (dtype -> pyval -> pyval outcome) -> (dtype -> dtype -> pyval -> pyval
     outcome) -> (pyval list -> dtype) -> (dtype -> pyval list -> dreq ->
     dtype) -> (dtype -> exn) -> aobj -> op -> state -> res **)
 
 let gen_alias_step pycast arrcast infer astype_dt itemseq_exn am o s =
-  step pycast arrcast infer astype_dt itemseq_exn (resolve_op am o) s
+  match o with
+  | Query q -> ((fst (alias_read am q s)), (Ret ()))
+  | _ -> step pycast arrcast infer astype_dt itemseq_exn (resolve_op am o) s
 
 (** val gen_alias_init_model :
     (dtype -> pyval -> pyval outcome) -> (dtype -> dtype -> pyval -> pyval
